@@ -55,6 +55,12 @@ func genBatch(r *RNG, withBad bool, maxLines int) *Scenario {
 			sc.Worlds[1].Loc = "p1" + sc.Worlds[1].Loc
 		}
 	}
+	// stratum: the projects use the same soil id, plot number and field id (ids are only unique inside a project)
+	if nw >= 2 && r.Bool(0.3) {
+		for _, w := range sc.Worlds[1:] {
+			w.Soil.ID, w.Plot, w.Field = sc.Worlds[0].Soil.ID, sc.Worlds[0].Plot, sc.Worlds[0].Field
+		}
+	}
 	// stratum: user-defined crop codes (each world renames its first crop to a code of its own; the codes get the
 	// same per-run crop id, so anything that confuses runs by that id shows)
 	if r.Bool(0.3) {
